@@ -73,6 +73,11 @@ pub struct XOut {
 }
 
 pub fn run_xml(chunks: &[String], exact: bool, bom: bool, profile: bool, gc: bool) -> XOut {
+    run_xml_opts(chunks, exact, bom, profile, gc, true)
+}
+
+/// `want_tree` = false skips the (recursive) dump and parent-link walk of this harness (scaled inputs)
+pub fn run_xml_opts(chunks: &[String], exact: bool, bom: bool, profile: bool, gc: bool, want_tree: bool) -> XOut {
     let sink = MonSink::new(true);
     let tb = XmlTreeBuilder::new(sink, XmlTreeBuilderOpts::default());
     let tok = XmlTokenizer::new(XRecorder { tb }, XmlTokenizerOpts { exact_errors: exact, discard_bom: bom, profile, initial_state: None });
@@ -107,7 +112,7 @@ pub fn run_xml(chunks: &[String], exact: bool, bom: bool, profile: bool, gc: boo
     });
     let panic = r.err();
     let events = tok.sink.tb.sink.log.replace(Vec::new());
-    let ok = panic.is_none();
+    let ok = panic.is_none() && want_tree;
     let tree = if ok { dump(&tok.sink.tb.sink.inner.document) } else { json!({"k":"none"}) };
     let parents_ok = if ok { parents_consistent(&tok.sink.tb.sink.inner.document) } else { true };
     XOut { events, tree, dom: None, panic, feeds, parents_ok }
@@ -331,7 +336,7 @@ pub fn main(args: &Args) {
     let mut r = Rng::new(args.num("seed", 1));
     let mut cr = Rng::new(args.num("seed", 1) ^ 0x99);
     let cases: Vec<Value> = if args.has("replay") {
-        read_cases().into_iter().filter(|c| c.get("items").is_some() || c.get("text").is_some()).collect()
+        read_cases().into_iter().filter(|c| c.get("items").is_some() || c.get("text").is_some() || (c["ev"] == "reset" && c.get("chunks").is_some())).collect()
     } else if mode == "sched" {
         let shard = args.num("shard", 0);
         let shards = args.num("shards", 1).max(1);
@@ -363,11 +368,26 @@ pub fn main(args: &Args) {
         } else {
             (0..args.num("n", 100)).map(|_| json!({"text": cps(&xml_text(&mut r, 12))})).collect()
         }
+    } else if args.get("gen") == Some("scaled") {
+        std::env::set_var("VH_NOTE", "1");
+        let n = args.num("scale", 10000) as usize;
+        let units = ["<a>", "<a xmlns:p='u'>", "<p:a xmlns:p='u' p:b='c'>", "<?pi ", "<!--", "</a>", "<a/>", "<a b='c' ", "&amp;", "&#65", "<![CDATA[", "]]>", "<!DOCTYPE a ",
+                     "\r", "\0", "x", "<", "</", "<a xmlns=''>", "<a xmlns='u'>", "\u{feff}"];
+        units.iter().map(|u| { let mut t = String::from("<r>"); for _ in 0..(n / u.len()).max(1) { t.push_str(u); } json!({"text": cps(&t), "scaled": true}) }).collect()
+    } else if args.get("gen") == Some("text") {
+        (0..args.num("n", 100)).map(|_| json!({"text": cps(&xml_text(&mut r, 12))})).collect()
     } else {
         (0..args.num("n", 100)).map(|_| { let k = 2 + r.below(14); json!({"items": gen_items(&mut r, k, mode == "ser")}) }).collect()
     };
     for c in cases {
-        let text = if c.get("items").is_some() { render(c["items"].as_array().unwrap()) } else { from_cps(&c["text"]) };
+        let replay_chunks: Option<Vec<String>> = if args.has("replay") && c["ev"] == "reset" {
+            c["chunks"].as_array().map(|a| a.iter().map(from_cps).collect())
+        } else {
+            None
+        };
+        let text = if let Some(ch) = &replay_chunks { ch.concat() }
+                   else if c.get("items").map(|i| i.as_array().map(|a| !a.is_empty()).unwrap_or(false)).unwrap_or(false) { render(c["items"].as_array().unwrap()) }
+                   else { from_cps(&c["text"]) };
         match mode.as_str() {
             "ns" => {
                 id += 1;
@@ -380,10 +400,25 @@ pub fn main(args: &Args) {
             },
             "sink" => {
                 // sink-call trace in the Trace_Sink format (C04 C05 C18 C20 for the XML tree builder)
-                for ch in chunkings(&text, &how, &mut cr) {
+                let gc = args.has("gc") || c["cfg"]["gc"] == true;
+                let chs = match &replay_chunks { Some(ch) => vec![ch.clone()], None => chunkings(&text, &how, &mut cr) };
+                for ch in chs {
                     id += 1;
-                    let xo = run_xml(&ch, false, true, false, args.has("gc"));
-                    out.line(&json!({"ev":"reset","case":id,"cfg":{"mode":"xml"},"chunks":ch.iter().map(|x| cps(x)).collect::<Vec<_>>(),"items":c.get("items").cloned().unwrap_or(json!([]))}));
+                    if c["scaled"] == true || c["cfg"]["scaled"] == true {
+                        crate::tok::note_current(&json!({"ev":"reset","case":id,"cfg":{"mode":"xml","gc":gc,"scaled":true},"chunks":ch.iter().map(|x| cps(x)).collect::<Vec<_>>()}));
+                        let xo = run_xml_opts(&ch, false, true, false, gc, false);
+                        out.line(&json!({"ev":"reset","case":id,"cfg":{"mode":"xml","gc":gc,"scaled":true},"chunks":[]}));
+                        for mut e in xo.feeds {
+                            e["case"] = json!(id);
+                            out.line(&e);
+                        }
+                        let neof = xo.events.iter().filter(|e| e["ev"] == "token" && e["tok"]["k"] == "eof").count();
+                        out.line(&json!({"ev":"tree","case":id,"dom":{"k":"none"},"quirks":"no","parents_ok":true,
+                                         "panic": match &xo.panic { Some(m) => json!([cps(m)]), None => json!([]) }, "neof": neof}));
+                        continue;
+                    }
+                    let xo = run_xml(&ch, false, true, false, gc);
+                    out.line(&json!({"ev":"reset","case":id,"cfg":{"mode":"xml","gc":gc},"chunks":ch.iter().map(|x| cps(x)).collect::<Vec<_>>(),"items":c.get("items").cloned().unwrap_or(json!([]))}));
                     let neof = xo.events.iter().filter(|e| e["ev"] == "token" && e["tok"]["k"] == "eof").count();
                     for mut e in xo.events {
                         if e["ev"] == "token" || e["ev"] == "reply" {
